@@ -94,17 +94,42 @@ theorem finish_shape {fx : Fixes} {cfg : Cfg} {fill sym lw : Nat} {line : List S
         subst hf
         exact FinishShape.dropped (by omega) hs
   | lineLimit =>
-    obtain ⟨hs, hlim⟩ := step_done_lineLimit hd
-    obtain ⟨hc, hl0⟩ := hi.fresh hlim
-    have hpos : 0 < effMax cfg lw := by
-      unfold limitReached at hlim; simp at hlim; exact hlim.1
-    have hcnt := hi.count hpos
+    obtain ⟨hs, hcase⟩ := step_done_lineLimit hd
+    -- the current row is empty, and the number of rows is not yet the limit (or there is none)
+    have hfacts : st.curr = [] ∧ st.len = 0 ∧ (st.result.length ≠ effMax cfg lw ∨ st.result = []) := by
+      rcases hcase with hlim | ⟨_, style, gs, rest, _, hst⟩
+      · obtain ⟨hc, hl0⟩ := hi.fresh hlim
+        have hpos : 0 < effMax cfg lw := by
+          unfold limitReached at hlim; simp at hlim; exact hlim.1
+        have hcnt := hi.count hpos
+        exact ⟨hc, hl0, Or.inl (by omega)⟩
+      · obtain ⟨_, hu, hc, _⟩ := hst
+        have hl0 : st.len = 0 := by rw [← hi.len, hc]; rfl
+        refine ⟨hc, hl0, ?_⟩
+        by_cases hr : st.result = []
+        · exact Or.inr hr
+        · left
+          rw [hu]
+          intro h0
+          exact hr (List.eq_nil_of_length_eq_zero h0)
+    obtain ⟨hc, hl0, hcnt⟩ := hfacts
     unfold finish rightAlign at hf
     have h1 : ¬ (st.result.length = 1 ∧ 0 < st.len) := by omega
     rw [if_neg h1] at hf
-    have hne' : st.result.length ≠ effMax cfg lw := by omega
-    simp [hl0, hne', hs, modifyLast_concat] at hf
-    subst hf
-    exact FinishShape.limit hs
+    rcases hcnt with hne' | hnil
+    · simp [hl0, hne', hs, modifyLast_concat] at hf
+      subst hf
+      exact FinishShape.limit hs
+    · by_cases hne' : st.result.length ≠ effMax cfg lw
+      · simp [hl0, hne', hs, modifyLast_concat] at hf
+        subst hf
+        exact FinishShape.limit hs
+      · have heq : st.result.length = effMax cfg lw := by omega
+        have h0 : 0 = effMax cfg lw := by rw [← heq, hnil]; rfl
+        simp [hl0, hs, hnil, h0.symm, modifyLast] at hf
+        subst hf
+        have := FinishShape.limit (cfg := cfg) (fill := fill) (sym := sym) (lw := lw) (st := st) hs
+        rw [hnil] at this
+        simpa using this
 
 end Wrap
